@@ -210,6 +210,26 @@ def transient(ck, F, E):
                               [p for p in pl["proj"] if p["k"] == "field"][-1].get("name") == "interpreter"]
                     if t_new and t_new[0] is not None and stores and all(bb == t_new[0] or mr.dominates(t_new[0], bb) for bb in stores):
                         tested = True
+        if not tested:
+            # `let requested = matches!(state, NewInterpreterRequested); if requested { replace }`: per feasible path (constants
+            # propagated through the flag), the interpreter is replaced exactly when the state's discriminant was the transient one
+            from lib import path_records
+            try:
+                paths = [p for (p, stop) in mr.const_paths(0, set())]
+                recs = path_records(mr, paths=paths)
+            except OverflowError:
+                recs = []
+            stores = {bb for bb, i, pl, rv, sp in mr.assigns() if [p for p in pl["proj"] if p["k"] == "field"] and
+                      [p for p in pl["proj"] if p["k"] == "field"][-1].get("name") == "interpreter"}
+            seen_new = False
+            agree = bool(recs)
+            for r in recs:
+                vs = [d[2] for d in r["decisions"] if "get_state" in d[0] and isinstance(d[2], (str, tuple))]
+                is_new = "NewInterpreterRequested" in vs
+                seen_new = seen_new or is_new
+                if bool(stores & set(r["path"])) != is_new:
+                    agree = False
+            tested = agree and seen_new
         ck.require(ok and tested, "C19:TRANSIENT:replace-with-default", "transient state",
                    "on NewInterpreterRequested the interpreter is replaced by Interpreter::default()",
                    "maybe_replace_interpreter no longer installs a fresh default interpreter on NEW", mr.span)
